@@ -474,7 +474,7 @@ pub fn run(args: &Args) {
     let mut env = Env::new(&args.work);
     if let Some(p) = &args.replay {
         let v: Value = serde_json::from_str(&std::fs::read_to_string(p).unwrap()).unwrap();
-        if v["case"]["kind"] == "c20-text" {
+        if v["case"]["kind"] == "c20-text" || v["case"]["kind"] == "c20-text-raw" {
             text::replay(&mut sink, &mut env, &v["case"]);
             sink.finish();
             return;
